@@ -18,7 +18,7 @@ macro_rules! kinds {
 kinds! {
     Nop,
     // guards
-    Pin, Unpin, Reactivate, ReactAfter, Flush,
+    Pin, Unpin, Reactivate, ReactAfter, Flush, PanicCs,
     // Rc
     New, NewMany, NewIter, Clone, DropRc, Finalize, Downgrade, WeakMany, SnapOf, RcTag, DerefRc,
     // Snapshot
@@ -44,15 +44,16 @@ kinds! {
 /// | kind | a | b | c | d |
 /// |---|---|---|---|---|
 /// | Pin/Unpin/Reactivate/Flush | guard | | | |
+/// | PanicCs | body (0 flush, 1 defer+flush, 2 drop an Rc + flush) | | | |
 /// | ReactAfter | guard | body (0 noop, 1 panic, 2 nested pin+unpin, 3 pin+flush+unpin) | | |
 /// | New | dst rc | extra-from rc (99 none) | rank class (0 = random rank) | 0 plain-Rc field; 1 AtomicRc::from(&Rc), 2 AtomicRc::from(Rc), 3 AtomicWeak::from(&Rc), 4 AtomicWeak::from(&Weak) |
 /// | NewMany | n | | | |
-/// | NewIter | count | take | abort? | guard |
+/// | NewIter | count index | take | bit 0 abort?; bits 1-2: 1 nth(1), 2 nth(count), 3 step_by(2) over the rest | guard |
 /// | Clone | src rc | dst rc | | |
 /// | DropRc | rc | | | |
 /// | Finalize | rc | guard | | |
 /// | Downgrade | rc | dst weak | guard | 1 = Weak::from(rc.snapshot(guard)) |
-/// | WeakMany | rc | n | | |
+/// | WeakMany | rc | index into [0,1,2,3,8,9,16] | | |
 /// | SnapOf | rc | guard | dst snap | |
 /// | RcTag/SnapTag/WTag/WsTag | slot | tag index | | |
 /// | DerefRc/DerefSnap | slot | | | |
@@ -204,6 +205,8 @@ pub struct RunCfg {
     /// raise signal 7 when a cascade reclaims a node at this depth (0 = off): lets a template
     /// place an action in the middle of a long cascade
     pub signal_depth: u32,
+    /// memory orderings passed to the cell operations (see interp::ORD_MODE)
+    pub ord_mode: u32,
 }
 
 impl Default for RunCfg {
@@ -228,6 +231,7 @@ impl Default for RunCfg {
             lin: 0,
             quarantine: true,
             signal_depth: 0,
+            ord_mode: 0,
         }
     }
 }
@@ -255,6 +259,9 @@ impl RunCfg {
         if self.signal_depth != 0 {
             j.put("signal_depth", self.signal_depth);
         }
+        if self.ord_mode != 0 {
+            j.put("ord_mode", self.ord_mode);
+        }
         if let Some(s) = &self.stall {
             j.put("stall", J::obj().set("victim", s.victim).set("site", s.site).set("nth", s.nth).set("k", s.k).set("release_signal", s.release_signal));
         }
@@ -281,6 +288,7 @@ impl RunCfg {
             lin: j.getu("lin") as u32,
             quarantine: j.get("quarantine").and_then(|x| x.as_bool()).unwrap_or(true),
             signal_depth: j.getu("signal_depth") as u32,
+            ord_mode: j.getu("ord_mode") as u32,
         }
     }
 }
